@@ -1396,8 +1396,13 @@ class CountTopologies(Family):
     (harness/gen_ts.py, samples are leaves) x families of disjoint sample sets, against the
     brute force over all one-sample-per-set choices; incremental == per tree."""
     name = "count_topologies"
+    prelude = ("From Coq Require Import List ZArith Bool.\nImport ListNotations.\n"
+               "From TskVerif Require Import Base.Common C15.Combination C15.Partitions C15.RankTree C15.CountTopo.\n"
+               "Open Scope Z_scope.\n"
+               "Definition tct_is (roots : list ctree) (want : tcounter) : bool := match tree_count_topologies roots with Ok tc => tc_eqb tc want | _ => false end.\n")
     workers = 8
     timeout = 120.0
+    shard = 60
 
     def generate(self, rng, tier):
         from harness import gen_ts
@@ -1478,6 +1483,36 @@ class CountTopologies(Family):
                 break
         return out
 
+    def coq_check(self, case, obs):
+        """Model (C15/CountTopo.v: tree_count_topologies) on every tree of the sequence."""
+        from harness import gen_ts
+        desc, sets = case["desc"], case["sets"]
+        if len(desc["nodes"]) > 14 or any("exc" in d for d in obs["per_tree"]):
+            return None
+        sidx = {}
+        for i, st in enumerate(sets):
+            for u in st:
+                sidx[u] = i
+        terms = []
+        for k, left in enumerate(obs["lefts"]):
+            parent = gen_ts.parent_at(desc, int(round(left)))
+            kids = {}
+            for c, p in enumerate(parent):
+                if p != -1:
+                    kids.setdefault(p, []).append(c)
+
+            def ct(u):
+                return "CT %s [%s]" % ("(Some %s)" % cz(sidx[u]) if u in sidx else "None",
+                                       "; ".join(ct(c) for c in kids.get(u, [])))
+            roots = "[" + "; ".join(ct(u) for u in range(len(parent)) if parent[u] == -1) + "]"
+            want = "[" + "; ".join(
+                "(%s, [%s])" % (clist([int(x) for x in key.split(",")]),
+                                "; ".join("((%s, %s), %s)" % (cz(int(r.split(",")[0])), cz(int(r.split(",")[1])), cz(cnt))
+                                          for r, cnt in sorted(d.items())))
+                for key, d in sorted(obs["per_tree"][k].items())) + "]"
+            terms.append("tct_is %s %s" % (roots, want))
+        return " && ".join(terms) if terms else None
+
     def nontrivial(self, case, obs):
         return len(case["sets"]) >= 2 and any(len(d) > 1 for d in obs["per_tree"] if "exc" not in d)
 
@@ -1499,7 +1534,7 @@ FAMILIES = [Comb, CombRank, CombWR, Parts, NumShapes, TreeBlock, TreeRankUnrank,
             AllLabellings, TreeBig, TreeOOR, RankInvariance, CountTopologies]
 
 NOT_COVERED = [
-    "count_topologies is tied to the brute-force definition only differentially (no Gallina model of PartialTopologyCounter/TopologyCounter yet)",
-    "RankTree bijection theorems are proved for bounded n (bound in the statement); the unbounded statements are kept as comments",
+    "tree_count_topologies / TopologyCounter / PartialTopologyCounter are modelled (C15/CountTopo.v) and tied by correspondence, but no theorem relates the model to the brute-force definition yet; treeseq_count_topologies (incremental update_state) is tied differentially only",
+    "RankTree: the shape half of rank(unrank r) = r and the density of shape ranks are proved unboundedly; the label half and unrank(rank t) = t are proved for bounded n only (bound in the statement)",
     "n > 16 leaves is not exercised against the implementation (num_shapes/unrank cost grows steeply; measured 29 s at n = 20)",
 ]
